@@ -22,29 +22,55 @@ type clause struct {
 
 // FuncContract is the contract of one function (or closure, type, interface method).
 type FuncContract struct {
-	pkg         string // package path the block is declared in
-	key         string // "Recv.Name" or "Name"
-	anchor      string // for closures: source anchor inside the enclosing function
-	kind        string // func | closure | type | iface
-	props       []string
-	requires    []clause
-	ensures     []clause
-	invs        map[int][]clause
-	assigns     []clause // nil: no assigns clause (everything may be written); empty+assignsNone: nothing
-	assignsNone bool
-	decreases   []clause
-	panicsNever bool
-	trusted     bool
-	safetyProps []string // properties the K2 obligations of this function belong to
-	inlineOK    bool
-	noClosures  bool
-	pos         string
-	used        bool
-	opts        map[string]string
-	asserts     []midAssert
-	implOf      *types.Signature // interface method signature (implementation units)
-	laws        []string         // table blocks: algebraic laws over the entries
-	implIface   types.Type
+	pkg               string // package path the block is declared in
+	key               string // "Recv.Name" or "Name"
+	anchor            string // for closures: source anchor inside the enclosing function
+	kind              string // func | closure | type | iface
+	props             []string
+	requires          []clause
+	ensures           []clause
+	invs              map[int][]clause
+	assigns           []clause // nil: no assigns clause (everything may be written); empty+assignsNone: nothing
+	assignsNone       bool
+	decreases         []clause
+	panicsNever       bool
+	trusted           bool
+	safetyProps       []string // properties the K2 obligations of this function belong to
+	inlineOK          bool
+	noClosures        bool
+	pos               string
+	used              bool
+	opts              map[string]string
+	asserts           []midAssert
+	implOf            *types.Signature // interface method signature (implementation units)
+	laws              []string         // table blocks: algebraic laws over the entries
+	variants          map[int]clause   // loop ordinal -> decreases expression
+	ghostStmts        []ghostStmt      // ghost assignments executed after an anchored call
+	closureSpecs      []closureSpec    // function literals created by the function: verified at their creation site
+	ghostReturn       []ghostStmt      // ghost assignments executed at every return of the function
+	assertsAfter      []midAssert      // assertions checked right after an anchored call
+	chanValue, chanOK clause           // channel blocks: received value / ok flag
+	chanEffects       []ghostStmt      // channel blocks: ghost updates on a successful receive
+	pureParams        map[string]bool  // function-typed parameters / captured variables that are pure functions of their arguments
+	implIface         types.Type
+}
+
+// closureSpec: `closure-spec "<anchor>" as <TypeName> [attr g(self) = E, ...]`. The function literal whose source contains
+// the anchor (or the bound method value named `$bound:<method>`) gets the ghost attributes and is verified against the
+// type contract of <TypeName> where it is created.
+type closureSpec struct {
+	anchor   string
+	typeName string
+	attrs    []ghostStmt
+	assumes  []clause // facts about captured, configuration-like state that still hold when the literal is invoked (assumed)
+	text     string
+}
+
+type ghostStmt struct {
+	anchor string
+	target ast.Expr // ghost variable application
+	value  ast.Expr
+	text   string
 }
 
 type midAssert struct {
@@ -67,6 +93,7 @@ type GhostFunc struct {
 	params []ghostParam
 	result string   // Go type text
 	body   ast.Expr // predicate definitions: expanded inline
+	isVar  bool     // ghost state: a mutable map from the argument to the value (a heap register)
 	pkg    string
 }
 
@@ -168,6 +195,108 @@ func (cs *ContractSet) parseFile(pkgPath, filename string, lines []string, lineN
 			cs.funcs[pkgPath+"::"+word+":"+key] = cur
 			cs.order = append(cs.order, cur)
 			curLemma = nil
+		case "channel":
+			// channel <Type>.<field> : ghost protocol of receives from that channel field
+			name := strings.TrimSpace(rest)
+			cur = &FuncContract{pkg: pkgPath, key: name, kind: "channel", invs: map[int][]clause{}, pos: where, opts: map[string]string{}}
+			cs.funcs[pkgPath+"::channel:"+name] = cur
+			cs.order = append(cs.order, cur)
+			curLemma = nil
+		case "value", "ok":
+			if cur == nil || cur.kind != "channel" {
+				cs.errors = append(cs.errors, where+": `"+word+"` belongs to a channel block")
+				continue
+			}
+			ex, err := parseSpecExpr(rest)
+			if err != nil {
+				cs.errors = append(cs.errors, where+": "+err.Error())
+				continue
+			}
+			if word == "value" {
+				cur.chanValue = clause{kind: word, text: rest, expr: ex, line: where}
+			} else {
+				cur.chanOK = clause{kind: word, text: rest, expr: ex, line: where}
+			}
+		case "closure-spec":
+			if cur == nil {
+				cs.errors = append(cs.errors, where+": closure-spec outside a block")
+				continue
+			}
+			rest = strings.TrimSpace(rest)
+			var assumeTxt string
+			if k := indexTop(rest, " assume "); k >= 0 {
+				assumeTxt = strings.TrimSpace(rest[k+8:])
+				rest = strings.TrimSpace(rest[:k])
+			}
+			m := regexp.MustCompile(`^("(?:[^"\\]|\\.)*")\s+as\s+([\w.]+)\s*(?:attr\s+(.*))?$`).FindStringSubmatch(rest)
+			if m == nil {
+				cs.errors = append(cs.errors, where+": expected closure-spec \"anchor\" as Type [attr g(self) = E, ...]")
+				continue
+			}
+			anchor, _ := strconv.Unquote(m[1])
+			spec := closureSpec{anchor: anchor, typeName: m[2], text: rest}
+			if m[3] != "" {
+				for _, part := range splitTop(m[3], ',') {
+					k := indexTop(part, "=")
+					if k < 0 {
+						cs.errors = append(cs.errors, where+": attr needs g(self) = E")
+						continue
+					}
+					tx, err1 := parseSpecExpr(strings.TrimSpace(part[:k]))
+					vx, err2 := parseSpecExpr(strings.TrimSpace(part[k+1:]))
+					if err1 != nil || err2 != nil {
+						cs.errors = append(cs.errors, where+": cannot parse attr")
+						continue
+					}
+					spec.attrs = append(spec.attrs, ghostStmt{target: tx, value: vx, text: strings.TrimSpace(part)})
+				}
+			}
+			if assumeTxt != "" {
+				ex, err := parseSpecExpr(assumeTxt)
+				if err != nil {
+					cs.errors = append(cs.errors, where+": "+err.Error())
+				} else {
+					spec.assumes = append(spec.assumes, clause{kind: "assume", text: assumeTxt, expr: ex, line: where})
+				}
+			}
+			cur.closureSpecs = append(cur.closureSpecs, spec)
+		case "effect", "ghost-set", "ghost-return":
+			// effect g(x) = E          (channel blocks)
+			// ghost-set "<anchor>" g(x) = E   (function blocks: executed right after the first call containing the anchor)
+			if cur == nil {
+				cs.errors = append(cs.errors, where+": `"+word+"` outside a block")
+				continue
+			}
+			txt := strings.TrimSpace(rest)
+			anchor := ""
+			if word == "ghost-set" {
+				m := regexp.MustCompile(`^("(?:[^"\\]|\\.)*")\s+(.*)$`).FindStringSubmatch(txt)
+				if m == nil {
+					cs.errors = append(cs.errors, where+": expected ghost-set \"anchor\" g(x) = E")
+					continue
+				}
+				anchor, _ = strconv.Unquote(m[1])
+				txt = m[2]
+			}
+			k := indexTop(txt, "=")
+			if k < 0 {
+				cs.errors = append(cs.errors, where+": expected g(x) = E")
+				continue
+			}
+			tx, err1 := parseSpecExpr(strings.TrimSpace(txt[:k]))
+			vx, err2 := parseSpecExpr(strings.TrimSpace(txt[k+1:]))
+			if err1 != nil || err2 != nil {
+				cs.errors = append(cs.errors, where+": cannot parse ghost assignment")
+				continue
+			}
+			gs := ghostStmt{anchor: anchor, target: tx, value: vx, text: txt}
+			if word == "effect" {
+				cur.chanEffects = append(cur.chanEffects, gs)
+			} else if word == "ghost-return" {
+				cur.ghostReturn = append(cur.ghostReturn, gs)
+			} else {
+				cur.ghostStmts = append(cur.ghostStmts, gs)
+			}
 		case "type-contract":
 			name := strings.TrimSpace(rest)
 			cur = &FuncContract{pkg: pkgPath, key: name, kind: "type", invs: map[int][]clause{}, pos: where, opts: map[string]string{}}
@@ -263,6 +392,16 @@ func (cs *ContractSet) parseFile(pkgPath, filename string, lines []string, lineN
 			if cur != nil {
 				cur.trusted = true
 			}
+		case "pure":
+			// pure f, g : the function-typed parameters (or captured variables) f and g assign nothing and are deterministic
+			if cur != nil {
+				if cur.pureParams == nil {
+					cur.pureParams = map[string]bool{}
+				}
+				for _, n := range strings.Fields(strings.ReplaceAll(rest, ",", " ")) {
+					cur.pureParams[n] = true
+				}
+			}
 		case "law":
 			if cur != nil && cur.kind == "table" {
 				cur.laws = append(cur.laws, strings.TrimSpace(rest))
@@ -273,7 +412,7 @@ func (cs *ContractSet) parseFile(pkgPath, filename string, lines []string, lineN
 			if cur != nil && strings.TrimSpace(rest) == "never" {
 				cur.panicsNever = true
 			}
-		case "assert":
+		case "assert", "assert-after":
 			// assert[label] "<anchor>" E
 			if cur == nil {
 				cs.errors = append(cs.errors, where+": assert outside a contract block")
@@ -300,7 +439,11 @@ func (cs *ContractSet) parseFile(pkgPath, filename string, lines []string, lineN
 			if label == "" {
 				label = fmt.Sprintf("assert%d", len(cur.asserts)+1)
 			}
-			cur.asserts = append(cur.asserts, midAssert{anchor: anchor, cl: clause{kind: "assert", text: m[2], expr: ex, line: where, label: label}})
+			if word == "assert-after" {
+				cur.assertsAfter = append(cur.assertsAfter, midAssert{anchor: anchor, cl: clause{kind: "assert", text: m[2], expr: ex, line: where, label: label}})
+			} else {
+				cur.asserts = append(cur.asserts, midAssert{anchor: anchor, cl: clause{kind: "assert", text: m[2], expr: ex, line: where, label: label}})
+			}
 		case "requires", "ensures", "decreases", "assigns", "invariant", "loop":
 			if cur == nil {
 				cs.errors = append(cs.errors, where+": clause outside a contract block: "+l)
@@ -312,11 +455,14 @@ func (cs *ContractSet) parseFile(pkgPath, filename string, lines []string, lineN
 				w2, r2 := splitWord(rest)
 				n, err := strconv.Atoi(w2)
 				w3, r3 := splitWord(r2)
-				if err != nil || w3 != "invariant" {
-					cs.errors = append(cs.errors, where+": expected `loop <k> invariant E`")
+				if err != nil || (w3 != "invariant" && w3 != "decreases") {
+					cs.errors = append(cs.errors, where+": expected `loop <k> invariant E` or `loop <k> decreases E`")
 					continue
 				}
 				loopNo, kind, rest = n, "invariant", r3
+				if w3 == "decreases" {
+					kind = "loop-decreases"
+				}
 			}
 			label := ""
 			var props []string
@@ -392,6 +538,11 @@ func (cs *ContractSet) parseFile(pkgPath, filename string, lines []string, lineN
 					loopNo = 1
 				}
 				cur.invs[loopNo] = append(cur.invs[loopNo], cl)
+			case "loop-decreases":
+				if cur.variants == nil {
+					cur.variants = map[int]clause{}
+				}
+				cur.variants[loopNo] = cl
 			}
 		default:
 			cs.errors = append(cs.errors, where+": unknown contract line: "+l)
@@ -415,17 +566,23 @@ func splitWord(s string) (string, string) {
 // ghost func name(p T, q U) R     |    predicate name(p T) = expr
 func parseGhost(word, rest string) (*GhostFunc, error) {
 	rest = strings.TrimSpace(rest)
+	isVar := false
 	if word == "ghost" {
-		if !strings.HasPrefix(rest, "func ") {
-			return nil, fmt.Errorf("expected `ghost func`")
+		switch {
+		case strings.HasPrefix(rest, "func "):
+			rest = strings.TrimSpace(rest[5:])
+		case strings.HasPrefix(rest, "var "):
+			rest = strings.TrimSpace(rest[4:])
+			isVar = true
+		default:
+			return nil, fmt.Errorf("expected `ghost func` or `ghost var`")
 		}
-		rest = strings.TrimSpace(rest[5:])
 	}
 	i := strings.Index(rest, "(")
 	if i < 0 {
 		return nil, fmt.Errorf("ghost: missing parameter list")
 	}
-	g := &GhostFunc{name: strings.TrimSpace(rest[:i])}
+	g := &GhostFunc{name: strings.TrimSpace(rest[:i]), isVar: isVar}
 	depth, j := 0, i
 	for ; j < len(rest); j++ {
 		if rest[j] == '(' {
